@@ -62,12 +62,37 @@ func runC20(w *World, r *Report) {
 			construct := fmt.Sprintf("%s writes graph.%s", w.fname(top), fw.field.Name())
 			if top == gcompile && !sameField(fw.field, fCompiled) {
 				ok = false
+				// the re-entrancy flag of compile (see C20.gates): set on entry, cleared by the deferred reset, read by nobody else
+				if rf := compileReentrancyFlag(w); rf != nil && sameField(fw.field, rf) {
+					ok = true
+				}
 			}
 			if top == wfcompile && fw.field.Name() != "handlerPreNode" {
 				ok = false
+				// … or registers a static-values-only node among the mapped nodes: an insert of an EMPTY record under a key
+				// that has none yet (idempotent, changes no existing record)
+				if mu, isMU := fw.in.(*ssa.MapUpdate); isMU && fw.field.Name() == "fieldMappingRecords" && isNilConst(mu.Value) {
+					ok = hasGuard(mu.Block(), func(g guard) bool {
+						ex, isEx := g.cond.(*ssa.Extract)
+						if !isEx || ex.Index != 1 || g.pol {
+							return false
+						}
+						lk, isLk := ex.Tuple.(*ssa.Lookup)
+						return isLk && lk.CommaOk && isLoadOfField(lk.X, fw.field) && sameFieldLoad(lk.Index, mu.Key)
+					})
+				}
 			}
 			if top.Name() == "NewChain" && fw.field.Name() != "cmp" {
 				ok = false
+			}
+			// the Workflow layer's sticky-error recorder: writes buildError, and only while it is still nil
+			if !ok && sameField(fw.field, fBuildErr) && namedOfRecv(top) == w.Named("compose", "Workflow") {
+				ok = hasGuard(fw.in.Block(), func(g guard) bool {
+					return guardIsNil(g, func(v ssa.Value) bool { return isLoadOfField(v, fBuildErr) })
+				})
+				if ok {
+					allowedWriters[top] = "records a build error of the Workflow layer while none is recorded yet"
+				}
 			}
 			r.Check(ok, "C20.guards-dominate-writes", construct, fw.in.Pos(), "allowed writer ("+allowedWriters[top]+")", "graph builder state written outside the guarded builder functions")
 			if sameField(fw.field, fCompiled) {
@@ -394,6 +419,102 @@ func runC20(w *World, r *Report) {
 			okd = !reach
 		}
 		r.Check(okd, "C20.gates", "graph.compile gate: DAG mode only after validateDAG", gcompile.Pos(), "r.dag = true is reachable only through validateDAG", "all-predecessor mode is enabled without cycle validation")
+		// a graph met again while it is being compiled is nested in itself: an error, not an endless descent
+		{
+			rf := compileReentrancyFlag(w)
+			r.Check(rf != nil, "C20.gates", "graph.compile gate: a graph nested in itself is rejected", gcompile.Pos(), "compile holds a flag on the graph while it runs (set before the nested graphs are compiled, cleared by a deferred reset) and returns an error when it finds it set",
+				"graph.compile descends into the graphs nested in it without noticing that it has come back to itself: g.AddGraphNode(\"self\", g) (or g in h in g) is accepted and Compile dies with 'fatal error: stack overflow', which no caller can recover")
+			if rf != nil {
+				gateIdx := func(iff *ssa.If) (int, bool) {
+					if isLoadOfField(iff.Cond, rf) {
+						return 0, true
+					}
+					return 0, false
+				}
+				gate("graph nested in itself", gateIdx)
+			}
+		}
+		// an unknown trigger mode is refused (a Chain / Workflow refuses any mode, a Graph must refuse what it does not know)
+		{
+			fMode := w.Field("compose", "graphCompileOptions", "nodeTriggerMode")
+			okm := false
+			instrs(gcompile, func(in ssa.Instruction) {
+				ret, ok := in.(*ssa.Return)
+				if !ok || len(ret.Results) != 2 || isNilConst(ret.Results[1]) {
+					return
+				}
+				seenConst := map[string]bool{}
+				for _, g := range guardsOf(ret.Block()) {
+					op, x, y, ok := asCmp(g.cond)
+					if !ok || !((op == token.NEQ && g.pol) || (op == token.EQL && !g.pol)) || !isLoadOfField(x, fMode) {
+						continue
+					}
+					if c, ok := y.(*ssa.Const); ok && c.Value != nil {
+						seenConst[c.Value.ExactString()] = true
+					}
+				}
+				if seenConst[`"any_predecessor"`] && seenConst[`"all_predecessor"`] {
+					okm = true
+				}
+			})
+			r.Check(okm, "C20.gates", "graph.compile gate: unknown node trigger mode rejected", gcompile.Pos(), "an error return under mode != AnyPredecessor && mode != AllPredecessor (&& mode != \"\")", "WithNodeTriggerMode(\"no_such_mode\") compiles and silently runs as AnyPredecessor: a mistyped AllPredecessor gives a graph with different join semantics instead of an error")
+		}
+		// … and validateDAG follows data edges too: a node of an all-predecessor graph waits for its data predecessors as
+		// well, so a loop closed by a data-only edge (WithNoDirectDependency) is a dead graph that must not compile
+		{
+			fWriteTo := w.Field("compose", "chanCall", "writeTo")
+			fDataEdges := w.Field("compose", "graph", "dataEdges")
+			followsData := false
+			for _, li := range naturalLoops(vdag) {
+				overWriteTo, decr := false, false
+				for b := range li.body {
+					for _, in := range b.Instrs {
+						switch x := in.(type) {
+						case *ssa.IndexAddr:
+							if isLoadOfField(x.X, fWriteTo) {
+								overWriteTo = true
+							}
+						case *ssa.MapUpdate:
+							if bo, ok := x.Value.(*ssa.BinOp); ok && bo.Op == token.SUB {
+								decr = true
+							}
+						}
+					}
+				}
+				if overWriteTo && decr {
+					followsData = true
+				}
+			}
+			passesData := false
+			if len(vcalls) == 1 {
+				for _, a := range vcalls[0].Common().Args {
+					mk, ok := a.(*ssa.MakeMap)
+					if !ok {
+						continue
+					}
+					for _, ref := range *mk.Referrers() {
+						mu, ok := ref.(*ssa.MapUpdate)
+						if !ok {
+							continue
+						}
+						for _, li := range naturalLoops(gcompile) {
+							if !li.body[mu.Block()] {
+								continue
+							}
+							for _, in := range li.header.Instrs {
+								if nx, ok := in.(*ssa.Next); ok {
+									if rg, ok := nx.Iter.(*ssa.Range); ok && isLoadOfField(rg.X, fDataEdges) {
+										passesData = true
+									}
+								}
+							}
+						}
+					}
+				}
+			}
+			r.Check(followsData && passesData, "C20.gates", "validateDAG follows data edges as well as control edges", vdag.Pos(), "called with the data-predecessor table built from g.dataEdges; takes a finished node off its writeTo successors",
+				fmt.Sprintf("cycle validation looks at control edges and branches only (data table passed: %v, writeTo followed: %v): a Workflow whose loop is closed by a data-only edge (AddInputWithOptions(…, WithNoDirectDependency()) against the direction of the control edges) compiles and every Invoke fails at once with 'no tasks to execute' — an ill-formed construction the documentation of WithNoDirectDependency itself calls invalid", passesData, followsData))
+		}
 		if len(vcalls) == 1 {
 			gate("validateDAG error", func(iff *ssa.If) (int, bool) {
 				op, x, y, ok := asCmp(iff.Cond)
@@ -557,6 +678,100 @@ func runC20(w *World, r *Report) {
 	})
 
 	// ---- Workflow.compile applies the deferred declarations exactly once
+	r.Rule("C20.workflow-error-sticks", "Workflow.compile: an error returned after it has started to apply deferred declarations (a replayed input, a registered path) is first recorded in the inner graph's buildError — the applied part stays applied, so only a sticky error makes the next Compile report the same reason instead of tripping over the leftovers", 2)
+	{
+		wfc := w.Fn("compose", "Workflow.compile")
+		fBE := w.Field("compose", "graph", "buildError")
+		gcomp := w.Fn("compose", "graph.compile")
+		capm := w.Fn("compose", "WorkflowNode.checkAndAddMappedPath")
+		var applying []ssa.Instruction
+		instrs(wfc, func(in ssa.Instruction) {
+			c, ok := in.(*ssa.Call)
+			if !ok {
+				return
+			}
+			if isCallTo(c, capm) {
+				applying = append(applying, c)
+				return
+			}
+			// a deferred input being replayed: a dynamic call of a func() error value
+			if c.Call.IsInvoke() || staticCallee(c) != nil {
+				return
+			}
+			if _, isB := c.Call.Value.(*ssa.Builtin); isB {
+				return
+			}
+			if sig, ok := c.Call.Value.Type().Underlying().(*types.Signature); ok && sig.Params().Len() == 0 && sig.Results().Len() == 1 {
+				applying = append(applying, c)
+			}
+		})
+		if len(applying) < 2 {
+			undecidedf("C20.workflow-error-sticks: %d applying calls found in Workflow.compile (replayed inputs, checkAndAddMappedPath)", len(applying))
+		}
+		isBEStore := func(in ssa.Instruction) bool {
+			st, ok := in.(*ssa.Store)
+			if !ok {
+				return false
+			}
+			fa, ok := st.Addr.(*ssa.FieldAddr)
+			return ok && sameField(fieldVarOfAddr(fa), fBE)
+		}
+		// … directly or through a recorder: a module function that stores into buildError under buildError == nil
+		directBEStore := isBEStore
+		isRecorder := func(fn *ssa.Function) bool {
+			if fn == nil || fn.Blocks == nil {
+				return false
+			}
+			ok := false
+			instrs(fn, func(x ssa.Instruction) {
+				if directBEStore(x) && hasGuard(x.Block(), func(g guard) bool {
+					return guardIsNil(g, func(v ssa.Value) bool { return isLoadOfField(v, fBE) })
+				}) {
+					ok = true
+				}
+			})
+			return ok
+		}
+		isBEStore = func(in ssa.Instruction) bool {
+			if directBEStore(in) {
+				return true
+			}
+			if c, ok := in.(ssa.CallInstruction); ok {
+				return isRecorder(staticCallee(c))
+			}
+			return false
+		}
+		nret := 0
+		instrs(wfc, func(in ssa.Instruction) {
+			ret, ok := in.(*ssa.Return)
+			if !ok || len(ret.Results) != 2 || isNilConst(ret.Results[1]) {
+				return
+			}
+			e := ret.Results[1]
+			if ex, ok := e.(*ssa.Extract); ok {
+				if c, ok := ex.Tuple.(*ssa.Call); ok && isCallTo(c, gcomp) {
+					return // graph.compile's own verdict
+				}
+			}
+			if isLoadOfField(e, fBE) {
+				return
+			}
+			for _, a := range applying {
+				if reach, _ := (pathQuery{fn: wfc, from: a, goal: func(x ssa.Instruction) bool { return x == ssa.Instruction(ret) }}).exists(); !reach {
+					continue
+				}
+				nret++
+				skip, wit := pathQuery{fn: wfc, from: a, goal: func(x ssa.Instruction) bool { return x == ssa.Instruction(ret) }, avoid: isBEStore}.exists()
+				r.Check(!skip, "C20.workflow-error-sticks", fmt.Sprintf("Workflow.compile: error return at %s after %s is sticky", w.pos(ret.Pos()), w.pos(a.Pos())), ret.Pos(), "g.buildError is written on every path from the applying call to the return",
+					"Compile returns an error after part of the node's deferred inputs were applied, without recording it: the next Compile (nothing changed in between) replays the inputs against their own leftovers and reports a different reason ('two terminal field paths conflict', 'control edge … have been added yet') — the first error is lost and the same construction sequence gives different outcomes: "+wit)
+				return
+			}
+		})
+		if nret == 0 {
+			undecidedf("C20.workflow-error-sticks: no error return of Workflow.compile lies behind an applying call")
+		}
+	}
+
 	r.Rule("C20.workflow-compile-once", "Workflow.compile: branch end nodes are validated before any branch is pushed into the inner graph; every container of deferred declarations (inputs, branches, static values) is reset once applied; pending declarations on an already compiled workflow are ErrGraphCompiled", 5)
 	{
 		wfc := w.Fn("compose", "Workflow.compile")
@@ -955,18 +1170,44 @@ func runC20(w *World, r *Report) {
 	unknownEndpoint(addBranch, keyParam(addBranch, "startNode"), cSTART, brW, "unknown branch start node")
 	blocks(addBranch, "END as branch start", brW, eqConstParam(keyParam(addBranch, "startNode"), cEND))
 	fEndNodes := w.Field("compose", "GraphBranch", "endNodes")
-	blocks(addBranch, "single-target branch", brW, func(iff *ssa.If) (int, bool) {
+	// a branch needs at least two targets: one is no branch, none leaves every answer of the condition an "unintended end node"
+	blocks(addBranch, "branch with fewer than two targets", brW, func(iff *ssa.If) (int, bool) {
 		op, x, y, ok := asCmp(iff.Cond)
-		if ok && isConstN(y, 1) && isLenOf(x, func(v ssa.Value) bool { return isLoadOfField(v, fEndNodes) }) {
-			if op == token.EQL {
-				return 0, true
-			}
-			if op == token.NEQ {
-				return 1, true
-			}
+		if !ok || !isLenOf(x, func(v ssa.Value) bool { return isLoadOfField(v, fEndNodes) }) {
+			return 0, false
+		}
+		switch {
+		case op == token.LSS && isConstN(y, 2), op == token.LEQ && isConstN(y, 1):
+			return 0, true
+		case op == token.GEQ && isConstN(y, 2), op == token.GTR && isConstN(y, 1):
+			return 1, true
 		}
 		return 0, false
 	})
+	// a nil branch is refused before anything reads through it
+	{
+		var brP *ssa.Parameter
+		for _, p := range addBranch.Params {
+			if pt, ok := p.Type().(*types.Pointer); ok && namedOf(pt.Elem()) == w.Named("compose", "GraphBranch") {
+				brP = p
+			}
+		}
+		if brP == nil {
+			undecidedf("C20.presence: addBranch has no *GraphBranch parameter")
+		}
+		nDeref, bad := 0, 0
+		for _, ref := range *brP.Referrers() {
+			switch x := ref.(type) {
+			case *ssa.FieldAddr, *ssa.UnOp:
+				nDeref++
+				if !hasGuard(ref.Block(), func(g guard) bool { return guardNonNil(g, func(v ssa.Value) bool { return v == ssa.Value(brP) }) }) {
+					bad++
+				}
+				_ = x
+			}
+		}
+		r.Check(nDeref > 0 && bad == 0, "C20.presence", "addBranch: nil branch refused before it is read", addBranch.Pos(), fmt.Sprintf("%d reads through the parameter, all under branch != nil", nDeref), fmt.Sprintf("%d of %d reads through the *GraphBranch parameter are not dominated by a nil test: AddBranch(node, nil) panics (nil pointer dereference) where Chain.AppendBranch(nil) returns an error — construction must reject, never panic", bad, nDeref))
+	}
 
 	// ---- no-panic
 	r.Rule("C20.no-panic", "no explicit panic reachable from the Add*/Append*/Compile entry points", 40)
@@ -1673,4 +1914,82 @@ func chainAppendArgsNotMutated(w *World, r *Report, rule string) {
 	if n < 2 {
 		r.Fail(rule, "Chain.Append* methods taking pointers", chainT.Obj().Pos(), fmt.Sprintf("%d found", n))
 	}
+}
+
+// sameFieldLoad: two values that are the same value or loads of the same field of the same base (go/ssa does no CSE).
+func sameFieldLoad(a, b ssa.Value) bool {
+	if a == b {
+		return true
+	}
+	fa, ba := loadedField(a)
+	fb, bb := loadedField(b)
+	return fa != nil && fb != nil && sameField(fa, fb) && ba == bb
+}
+
+// namedOfRecv: the (origin of the) named receiver type of a method, or nil.
+func namedOfRecv(fn *ssa.Function) *types.Named {
+	fn = origin(fn)
+	if fn.Signature.Recv() == nil {
+		return nil
+	}
+	n := namedOf(fn.Signature.Recv().Type())
+	if n == nil {
+		return nil
+	}
+	return n.Origin()
+}
+
+// compileReentrancyFlag: the bool field of graph that graph.compile sets to true in its own body, resets to false in a
+// deferred closure, and tests (true side -> error return) before it does anything else.
+func compileReentrancyFlag(w *World) *types.Var {
+	gcompile := w.Fn("compose", "graph.compile")
+	graphT := w.Named("compose", "graph")
+	var set, reset map[*types.Var]bool
+	set, reset = map[*types.Var]bool{}, map[*types.Var]bool{}
+	for _, f := range withAnons(gcompile) {
+		deferred := false
+		if f != gcompile {
+			instrs(gcompile, func(in ssa.Instruction) {
+				if d, ok := in.(*ssa.Defer); ok {
+					if mc, ok := d.Call.Value.(*ssa.MakeClosure); ok && mc.Fn == f {
+						deferred = true
+					}
+				}
+			})
+		}
+		for _, fw := range fieldWrites(f) {
+			if fw.owner != graphT {
+				continue
+			}
+			b, isC := constBool(fw.val)
+			if !isC {
+				continue
+			}
+			if f == gcompile && b {
+				set[fw.field] = true
+			}
+			if deferred && !b {
+				reset[fw.field] = true
+			}
+		}
+	}
+	for f := range set {
+		if !reset[f] {
+			continue
+		}
+		tested := false
+		instrs(gcompile, func(in ssa.Instruction) {
+			ret, ok := in.(*ssa.Return)
+			if !ok || len(ret.Results) != 2 || isNilConst(ret.Results[1]) {
+				return
+			}
+			if hasGuard(ret.Block(), func(g guard) bool { return g.pol && isLoadOfField(g.cond, f) }) {
+				tested = true
+			}
+		})
+		if tested {
+			return f
+		}
+	}
+	return nil
 }
